@@ -22,7 +22,7 @@ pub struct ActorModelState<A: Actor, H = ()> {
 }
 
 /// Represents a set of random choices for one actor.
-#[derive(Clone, Debug, Serialize)]
+#[derive(Clone, Debug, Eq, Hash, PartialEq, Serialize)]
 pub struct RandomChoices<Random> {
     /// The map of random choices for an actor.
     ///
@@ -47,6 +47,19 @@ impl<Random> RandomChoices<Random> {
     pub fn remove(&mut self, key: &String) -> Option<Vec<Random>> {
         self.map.remove(key)
     }
+}
+
+/// The actors that have a random choice pending, with their choices. Actors without a pending
+/// choice are skipped, so that a hand-built state whose `random_choices` vector is left empty
+/// has the same identity as the model-built one with an empty entry per actor.
+fn pending_random_choices<Random>(
+    random_choices: &[RandomChoices<Random>],
+) -> Vec<(usize, &RandomChoices<Random>)> {
+    random_choices
+        .iter()
+        .enumerate()
+        .filter(|(_, choices)| !choices.map.is_empty())
+        .collect()
 }
 
 impl<Random: Rewrite<Id>> Rewrite<Id> for RandomChoices<Random> {
@@ -141,6 +154,10 @@ where
         self.history.hash(state);
         self.timers_set.hash(state);
         self.network.hash(state);
+        // Pending random choices and crash flags determine which actions are enabled, so two
+        // states that differ in them are different states.
+        pending_random_choices(&self.random_choices).hash(state);
+        self.crashed.hash(state);
     }
 }
 
@@ -157,6 +174,9 @@ where
             && self.history.eq(&other.history)
             && self.timers_set.eq(&other.timers_set)
             && self.network.eq(&other.network)
+            && pending_random_choices(&self.random_choices)
+                .eq(&pending_random_choices(&other.random_choices))
+            && self.crashed.eq(&other.crashed)
     }
 }
 
